@@ -29,7 +29,9 @@ def run(ctx):
     ctx.extra["budget_runs_split_in_two_calls"] = summ1["vectors"]
     # (b) recursion and growth shapes against the real limits
     cl = {"Tier": '"quick"', "StepBound": "9000", "MaxBudget": "1", "FeedLen": "1", "Family": '"limits"'}
-    summ2, _, _ = pscommon.run_mbt(ctx, "MC_PSProg", cl, "pslimits", base_heap="FreshHeap")
+    # one worker: the records of this family are long (operand stacks of 500 values), and concurrent
+    # appends of several workers to the vector file interleave beyond one write chunk
+    summ2, _, _ = pscommon.run_mbt(ctx, "MC_PSProg", cl, "pslimits", base_heap="FreshHeap", workers=1)
     pscommon.absorb(ctx, summ2, "vh replay-ps (MC_PSProg limits)", "PSMachine!EnterProc/CallProc/Guarded, PSOps!NewContainer")
     ctx.extra["limit_shapes"] = summ2["vectors"]
     # (c) the %! start check
